@@ -3,12 +3,14 @@ use crate::Property;
 
 pub mod c02;
 pub mod c03;
+pub mod c09;
 pub mod c10;
 
 pub fn lookup(id: &str) -> Option<Box<dyn Property>> {
     Some(match id {
         "C02" => Box::new(c02::C02),
         "C03" => Box::new(c03::C03),
+        "C09" => Box::new(c09::C09),
         "C10" => Box::new(c10::C10),
         _ => return None,
     })
